@@ -97,11 +97,12 @@ Print Assumptions c01_exception_print_total.
 
 (* ---- the code before the fix commits: each statement is false, with a concrete file
    (corpus/C01/cases.txt replays the same bytes on the real code) *)
-(* F-C01a (object-info type 0x7777) and F-C01c (number_parameters = 16) *)
+(* F-C01a (object-info type 0x7777), F-C01c (number_parameters = 16), F-C01e (PPC context printed) *)
 Theorem c01_no_panic_unfixed_refuted :
   (exists file, wf_bytes file /\ In (10, FPan PANIC_OBJINFO_UNWRAP) (o_fields (run_case Unfixed Debug file))) /\
-  (exists file, wf_bytes file /\ In (12, FPan PANIC_EXC_INDEX) (o_fields (run_case Unfixed Debug file))).
-Proof. exact (conj (ex_intro _ wit_a wit_a_panics) (ex_intro _ wit_c wit_c_panics)). Qed.
+  (exists file, wf_bytes file /\ In (12, FPan PANIC_EXC_INDEX) (o_fields (run_case Unfixed Debug file))) /\
+  (exists file, wf_bytes file /\ In (13, FPan PANIC_CTX_UNIMPL) (o_fields (run_case Unfixed Debug file))).
+Proof. exact (conj (ex_intro _ wit_a wit_a_panics) (conj (ex_intro _ wit_c wit_c_panics) (ex_intro _ wit_e_ppc wit_e_panics))). Qed.
 Print Assumptions c01_no_panic_unfixed_refuted.
 
 (* F-C01b: a self-referential next_info_rva; the model's fuel runs out, and no fuel is enough *)
@@ -124,12 +125,13 @@ Example c01_nonvacuous_run :
   o_fields (run_case Fixed Debug nv_dump) =
     [(0, FOk [5]); (1, FOk [9]); (2, FOk [2]); (3, FOk [1]); (4, FErr EStreamNotFound); (5, FErr EStreamNotFound);
      (6, FErr EStreamNotFound); (7, FErr EStreamNotFound); (8, FErr EStreamNotFound); (9, FErr EStreamNotFound);
-     (10, FOk [1; 2]); (11, FOk [15]); (12, FOk [])] /\
+     (10, FOk [1; 2]); (11, FOk [15; 0]); (12, FOk []); (13, FOk [])] /\
   o_ledger (run_case Fixed Debug nv_dump) = [96; 256; 112; 248; 120].
 Proof. vm_compute. split; reflexivity. Qed.
 Example c01_nonvacuous_fixed_witnesses :
   In (10, FOk [1; 0]) (o_fields (run_case Fixed Debug wit_a)) /\
   In (10, FOk [1; 9]) (o_fields (run_case Fixed Debug wit_b)) /\
   In (12, FOk []) (o_fields (run_case Fixed Debug wit_c)) /\
-  In (10, FErr EStreamReadFailure) (o_fields (run_case Fixed Debug wit_d)) /\ o_ledger (run_case Fixed Debug wit_d) = [].
+  In (10, FErr EStreamReadFailure) (o_fields (run_case Fixed Debug wit_d)) /\ o_ledger (run_case Fixed Debug wit_d) = [] /\
+  In (11, FOk [0; 3]) (o_fields (run_case Fixed Debug wit_e_ppc)) /\ In (13, FOk []) (o_fields (run_case Fixed Debug wit_e_ppc)).
 Proof. exact wit_fixed_ok. Qed.
